@@ -122,7 +122,7 @@ def forbidden_scan():
     """no declared axiom, no open proof, no switched-off kernel check, no native_compute anywhere in the development
     (comments and strings excluded); Variable/Hypothesis only inside a Section"""
     bad = []
-    for fam in FAMILIES:
+    for fam in list(FAMILIES) + ["slow"]:
         for f in sorted(glob.glob(os.path.join(COQ, fam, "*.v"))):
             t = strip_coq_comments(open(f, errors="replace").read())
             for m in FORBIDDEN.finditer(t):
